@@ -15,7 +15,7 @@
 From Coq Require Import Floats Permutation.
 From JM Require Import Model.Base Model.Num Model.Value Model.JsonText Model.Lexer Model.Parser Model.Interp Model.Api
      Spec.Grammar Spec.Semantics Proofs.ValueFacts Proofs.InterpRefine Proofs.CompileTotal Proofs.ParserShape
-     Proofs.SearchTotal Proofs.ApiFacts Proofs.ParserTotal Proofs.ParserComplete Inst.FloatNum Run.Checker.
+     Proofs.SearchTotal Proofs.ApiFacts Proofs.ParserTotal Proofs.ParserComplete Proofs.LexText Inst.FloatNum Run.Checker.
 
 Section C04.
 Context {NumO : NumOps}.
@@ -57,10 +57,17 @@ Theorem C04_grammatical_is_accepted :
     parse_tokens ts = Ok (compile x).
 Proof. exact (parse_tokens_complete lit_text lit_ok). Qed.
 
+(* ... and from bytes: the spaced text of every such tree is accepted by Compile *)
+Theorem C04_grammatical_text_is_accepted :
+  forall x : expr, wp x = true -> texty lit_text x = true ->
+    Api.compile (expr_text lit_text x) = Ok (compile x).
+Proof. exact (compile_expr_text lit_text lit_ok). Qed.
+
 End C04.
 
 Print Assumptions C04_accept_or_reject.
 Print Assumptions C04_grammatical_is_accepted.
+Print Assumptions C04_grammatical_text_is_accepted.
 Print Assumptions C04_accepted_is_a_tree.
 Print Assumptions C04_accepted_evaluates_as_its_tree.
 
